@@ -119,6 +119,15 @@ Theorem C02_body_tail_is_FP : forall l r, 0 <= l < 2 ^ 32 -> 0 <= r < 2 ^ 32 -> 
 Proof. exact body_tail_is_FP. Qed.
 Print Assumptions C02_body_tail_is_FP.
 
+(* desSetKey, whole: for every 8-byte key block, schedule words 2r and 2r+1 are the FIPS round key K_(r+1) of that
+   key (textbook PC1, rotations, PC2 of Model/C02_DesSpec.v), laid out by [place]: word 2r carries the six bits for
+   S-boxes 1, 3, 5, 7 at bits 0.., 8.., 16.., 24..; word 2r+1 those for S-boxes 2, 4, 6, 8 at the same offsets rotated
+   left by 4; all other bits zero. Proved by symbolic GF(2) evaluation of all of desSetKey (Proofs/C02_KeySched.v). *)
+Theorem C02_round_keys : forall key r h, length key = 8%nat -> bytes_ok key = true -> (r < 16)%nat -> (h < 2)%nat ->
+  nth (2 * r + h) (set_key key) 0 = place h (nth r (key_schedule (flat_map byte_bits key)) []).
+Proof. exact round_keys. Qed.
+Print Assumptions C02_round_keys.
+
 (* PARTIAL. Full claim: forall pw and alphabet salts, fcrypt pw salt = Ok (h ++ [0]) with crypt pw salt = Some h.
    Proved conjuncts: same key block and same salt bits go in; SPtrans, skb, shifts2, cov_2char are the FIPS tables;
    the head of desSetKey is PC1 and the tail of body is FP; the equality holds on VECTORS (kernel evaluation).
